@@ -186,7 +186,7 @@ CHECKS = {
             "not_run": ["no scheduler: ApplyDiff is sequential; a concurrent secondary reader is not part of the property"],
         },
         "assumptions": ["equality is per key as a multiset of values; empty keys are absent"],
-        "required_probes": {"quick": ["diff_applied", "failed_diff_left_db_unchanged", "range_point_churn"], "thorough": ["diff_applied", "failed_diff_left_db_unchanged", "range_point_churn"]},
+        "required_probes": {"quick": ["diff_applied", "failed_diff_left_db_unchanged", "range_point_churn", "diff_larger_than_8192_lines"], "thorough": ["diff_applied", "failed_diff_left_db_unchanged", "range_point_churn", "diff_larger_than_8192_lines"]},
     },
     "C09": {
         "test": "TestC09",
